@@ -1278,6 +1278,21 @@ func (j *c05Judge) judgeKnown(recv c05Recv, uRecv cty.Value, calls []c05Call, re
 			break
 		}
 		// call i was accepted
+		if !definite && (c.k == "ll" || c.k == "lu" || c.k == "cl") && !uRecv.IsNull() && (t.IsListType() || t.IsSetType() || t.IsMapType()) {
+			// a known collection that stands for several values (a set with not wholly known members: they may
+			// coalesce): its possible lengths are [1, stored] — a length constraint that excludes ALL of them
+			// contradicts the known value whatever the unknown members turn out to be.  (A seeded change skipped
+			// the builder's comparison whenever Length() is not a known number.)
+			lo, hi := uRecv.LengthInt(), uRecv.LengthInt()
+			if t.IsSetType() && !uRecv.IsWhollyKnown() && hi >= 1 {
+				lo = 1
+			}
+			excluded := (c.k == "ll" && c.n > hi) || (c.k == "lu" && c.n < lo) || (c.k == "cl" && (c.n < lo || c.n > hi))
+			if excluded {
+				j.fail("known-is-assertion", "length-constraint-excluding-every-possible-length-accepted:"+tk+":"+c.k,
+					"a length constraint that no value the known collection stands for can satisfy was accepted: "+c.lit(), recv, calls[:i+1], "no panic")
+			}
+		}
 		if !holds && definite {
 			sig := sigX + "violated-assertion-accepted:" + tk + ":" + c.k
 			if tk == "str" && c05Kind(c) == "str" && len(c.recorded()) > len(uRecv.AsString()) && strings.HasPrefix(c.recorded(), uRecv.AsString()) {
